@@ -345,7 +345,7 @@ func c14Scenarios(r *rand.Rand, n int, emit func(Case)) {
 
 		// first member: the binary, inline program
 		baseArgv := sc.argv(r, sc.prog.text, sc.sels, oMode, "", sc.fileNames())
-		emit(Case{ID: g + "/inline", Req: CliReq(baseArgv, stdinData, hasStdin, disk, ofile), ImplOnly: true, Group: g,
+		emit(Case{ID: g + "/inline", Req: CliReq(baseArgv, stdinData, hasStdin, disk, ofile), Fields: c14CliFields, Group: g,
 			Meta: meta(baseArgv, "binary, inline program (first member of the group)"), Oracle: c14Basic, NonTrivial: c14NT})
 
 		// the library, compared with the model and tied to the binary
@@ -369,8 +369,8 @@ func c14Scenarios(r *rand.Rand, n int, emit func(Case)) {
 		if chance(r, 0.7) {
 			pf := pick(r, []string{"prog.jqawk", "p", "sub/prog.awk"})
 			argv := sc.argv(r, "", sc.sels, oMode, pf, sc.fileNames())
-			emit(Case{ID: g + "/dash-f", Req: CliReq(argv, stdinData, hasStdin, append(append([]CliFile{}, disk...), CliFile{Name: pf, Data: []byte(sc.prog.text)}), ofile),
-				ImplOnly: true, Group: g, GroupFields: []string{"exit", "out", "stderr", "ofile", "ofexists"},
+			emit(Case{ID: g + "/dash-f", Req: CliReq(argv, stdinData, hasStdin, append(append([]CliFile{}, disk...), CliFile{Name: pf, Data: []byte(sc.prog.text)}), ofile), Fields: c14CliFields,
+				 Group: g, GroupFields: []string{"exit", "out", "stderr", "ofile", "ofexists"},
 				Meta: meta(argv, "-f FILE instead of the inline program"), Oracle: c14Basic, NonTrivial: c14NT})
 		}
 
@@ -379,12 +379,12 @@ func c14Scenarios(r *rand.Rand, n int, emit func(Case)) {
 			gf := []string{"exit", "out", "ofile", "ofexists"}
 			if sc.mode == "stdin" {
 				argv := sc.argv(r, sc.prog.text, sc.sels, oMode, "", []string{"named.json"})
-				emit(Case{ID: g + "/as-file", Req: CliReq(argv, nil, false, []CliFile{{Name: "named.json", Data: sc.stdin}}, ofile),
-					ImplOnly: true, Group: g, GroupFields: gf, Meta: meta(argv, "the stdin bytes in a named file"), Oracle: c14Basic, NonTrivial: c14NT})
+				emit(Case{ID: g + "/as-file", Req: CliReq(argv, nil, false, []CliFile{{Name: "named.json", Data: sc.stdin}}, ofile), Fields: c14CliFields,
+					 Group: g, GroupFields: gf, Meta: meta(argv, "the stdin bytes in a named file"), Oracle: c14Basic, NonTrivial: c14NT})
 			} else {
 				argv := sc.argv(r, sc.prog.text, sc.sels, oMode, "", nil)
-				emit(Case{ID: g + "/as-stdin", Req: CliReq(argv, sc.files[0].Data, true, nil, ofile),
-					ImplOnly: true, Group: g, GroupFields: gf, Meta: meta(argv, "the file's bytes on stdin"), Oracle: c14Basic, NonTrivial: c14NT})
+				emit(Case{ID: g + "/as-stdin", Req: CliReq(argv, sc.files[0].Data, true, nil, ofile), Fields: c14CliFields,
+					 Group: g, GroupFields: gf, Meta: meta(argv, "the file's bytes on stdin"), Oracle: c14Basic, NonTrivial: c14NT})
 			}
 		}
 
@@ -400,7 +400,7 @@ func c14Scenarios(r *rand.Rand, n int, emit func(Case)) {
 				if alt != "" && alt != "-" {
 					altFile = alt
 				}
-				emit(Case{ID: g + "/o=" + alt, Req: CliReq(argv, stdinData, hasStdin, disk, altFile), ImplOnly: true, Group: g,
+				emit(Case{ID: g + "/o=" + alt, Req: CliReq(argv, stdinData, hasStdin, disk, altFile), Fields: c14CliFields, Group: g,
 					Meta: meta(argv, fmt.Sprintf("-o %q instead of -o %q", alt, oMode)), Oracle: c14Basic, NonTrivial: c14NT,
 					GroupCheck: func(first, self Resp) string { return c14OVariants(first, oMode, self, alt) }})
 			}
@@ -410,7 +410,7 @@ func c14Scenarios(r *rand.Rand, n int, emit func(Case)) {
 		if len(sc.sels) == 1 && !sc.prog.fileDollar && sc.sels[0] != "$." {
 			prog2 := "BEGINFILE { $ = " + sc.sels[0] + " }\n" + sc.prog.text
 			argv := sc.argv(r, prog2, nil, oMode, "", sc.fileNames())
-			emit(Case{ID: g + "/beginfile", Req: CliReq(argv, stdinData, hasStdin, disk, ofile), ImplOnly: true, Group: g,
+			emit(Case{ID: g + "/beginfile", Req: CliReq(argv, stdinData, hasStdin, disk, ofile), Fields: c14CliFields, Group: g,
 				GroupFields: []string{"exit", "out", "ofile", "ofexists"},
 				Meta:        meta(argv, "BEGINFILE { $ = E } instead of -r E"), Oracle: c14Basic, NonTrivial: c14NT})
 		}
@@ -481,6 +481,9 @@ func c14OVariants(a Resp, aMode string, b Resp, bMode string) string {
 	}
 	return ""
 }
+
+// fields of a `cli` answer compared between the real binary and the model of the wrapper
+var c14CliFields = []string{"exit", "out", "err", "ofile", "ofexists"}
 
 func init() {
 	noBin := func(emit func(Case)) bool {
@@ -554,7 +557,7 @@ func init() {
 				}
 				expected := want.String()
 				g := fmt.Sprintf("order-%d", i)
-				emit(Case{ID: g + "/cli", Req: CliReq(argv, nil, false, files, ""), ImplOnly: true, Group: g, NonTrivial: c14NT,
+				emit(Case{ID: g + "/cli", Req: CliReq(argv, nil, false, files, ""), Fields: c14CliFields, Group: g, NonTrivial: c14NT,
 					Meta: metaProg(prog, "argv", strings.Join(argv, " ␣ "), "expected", expected),
 					Oracle: func(i Resp) string {
 						if w := c14Basic(i); w != "" {
@@ -601,7 +604,7 @@ func init() {
 			n := 0
 			add := func(what string, argv []string, stdin []byte, hasStdin bool, files []CliFile, ofile string, oracle func(Resp) string) {
 				n++
-				emit(Case{ID: fmt.Sprintf("fault-%d", n), Req: CliReq(argv, stdin, hasStdin, files, ofile), ImplOnly: true, NonTrivial: c14NT,
+				emit(Case{ID: fmt.Sprintf("fault-%d", n), Req: CliReq(argv, stdin, hasStdin, files, ofile), Fields: c14CliFields, NonTrivial: c14NT,
 					Meta: map[string]string{"what": what, "argv": strings.Join(argv, " ␣ ")}, Oracle: oracle})
 			}
 			rounds := tierN(tier, 2, 3)
